@@ -3,7 +3,8 @@
 (* configurations; the library-level semantics is design-checked by MC_Seq,  *)
 (* MC_Feat and MC_Region).                                                   *)
 EXTENDS Stream, Json, IOUtils, SequencesExt, CSV
-CONSTANTS Stride, Offset, MaxStream
+CONSTANTS Stride, Offset, MaxStream,
+          CmdSet      \* the commands to drive
 
 F(key, lab, t, props) == [key |-> key, label |-> lab, loc |-> t, built |-> TRUE, props |-> props]
 Rec(name, base, n, topo, feats, refs) ==
@@ -72,7 +73,7 @@ Cmds ==
   \cup {[cmd |-> "search", args |-> <<"-e">> \o (IF nc THEN <<"--no-complement">> ELSE <<>>) \o kp[1] \o <<"@" \o q[1]>>,
          sem |-> [query |-> q[2], key |-> kp[2], props |-> kp[3], nocomp |-> nc]] : q \in Queries, nc \in BOOLEAN, kp \in KeyProps}
 
-All == SetToSeq({<<s, c>> : s \in Streams, c \in Cmds})
+All == SetToSeq({<<s, c>> : s \in Streams, c \in {x \in Cmds : x.cmd \in CmdSet}})
 Picked == SelectSeq([j \in 1..Len(All) |-> j], LAMBDA j : j % Stride = Offset % Stride)
 
 CaseJson(j) ==
